@@ -492,6 +492,13 @@ func nativeAtomicAdd(v *Verifier, s *State, c *ssa.CallCommon, f *ssa.Function, 
 // fmt.Sprintf: fresh string whose length is at least the number of literal (non-verb) bytes of a constant format.
 func nativeSprintf(v *Verifier, s *State, c *ssa.CallCommon, f *ssa.Function, a []*Value, p token.Pos) *Value {
 	r := freshValue("ret!Sprintf", resultType(c))
+	// Sprintf is a function of its arguments: with a constant format and a variadic slice of known length whose
+	// elements have known dynamic types, the result is the uninterpreted term sprintf!<fmt>(args)
+	if ft := sprintfTerm(v, s, a); ft != nil {
+		r = scalar(resultType(c), ft)
+		sl := App("slen", SInt, ft)
+		addFact(ft, And(Le(Int(0), sl), Le(sl, maxLen)))
+	}
 	if len(a) > 0 && a[0].L[0] != nil {
 		for lit, t := range TS.strLits {
 			if t == a[0].L[0] {
@@ -531,3 +538,65 @@ func onceSlot(p *Value) (string, *Term) {
 }
 
 var onceSort = ArrSort(SInt, SBool)
+
+
+func litOf(t *Term) (string, bool) {
+	for lit, x := range TS.strLits {
+		if x == t {
+			return lit, true
+		}
+	}
+	return "", false
+}
+
+func sprintfTerm(v *Verifier, s *State, a []*Value) *Term {
+	if len(a) < 2 || a[0].L[0] == nil || !isSlice(a[1].T) {
+		return nil
+	}
+	lit, ok := litOf(a[0].L[0])
+	if !ok {
+		return nil
+	}
+	n := a[1].sLen()
+	if !n.isInt() || !n.ival.IsInt64() || n.ival.Int64() > 8 {
+		return nil
+	}
+	et := under(a[1].T).(*types.Slice).Elem()
+	var args []*Term
+	for i := int64(0); i < n.ival.Int64(); i++ {
+		ev := s.loadElem(a[1].sArr(), Elt(a[1].sOff(), Int(i)), et)
+		if !isIface(et) || !ev.L[0].isInt() {
+			return nil
+		}
+		ct, ok := typeIDTypes[ev.L[0].ival.Int64()]
+		if !ok {
+			return nil
+		}
+		uv := v.unbox(s, ev, ct)
+		for _, l := range uv.L {
+			if l == nil {
+				return nil
+			}
+			args = append(args, l)
+		}
+	}
+	return App("sprintf!"+lit+sortSig(args), SStr, args...)
+}
+
+
+func sortSig(args []*Term) string {
+	sig := "!"
+	for _, a := range args {
+		switch a.sort {
+		case SInt:
+			sig += "i"
+		case SStr:
+			sig += "s"
+		case SBool:
+			sig += "b"
+		default:
+			sig += "x"
+		}
+	}
+	return sig
+}
